@@ -196,26 +196,34 @@ def relevantReq : List (String × String × String) := [
   ("CompleteMultipartUpload", "MpuObjectSize", "MpuObjectSize"),
   ("AbortMultipartUpload", "Bucket", "Bucket"), ("AbortMultipartUpload", "Key", "Key"), ("AbortMultipartUpload", "UploadId", "UploadId")]
 
-/-- Request fields the unchanged code does NOT hand to the backend unchanged (exactly the relevant
+/-- Request fields the code does NOT hand to the backend as a plain copy (exactly the relevant
 entries that fail `preservedReq`; Props.C18 proves the "exactly"). Each is a known finding or an
-argued non-issue (see `zeroUnreachable`, `faithfulDerivation`). -/
+argued non-issue (see `zeroUnreachable`, `faithfulDerivation`, `emptyBodyRewrite`).
+History: the `0 → absent` normalisations of MaxKeys (ListObjects, ListObjectsV2,
+ListObjectVersions), MaxParts (ListParts, GetObjectAttributes), MaxUploads and MpuObjectSize were
+entries of this list until they were removed from s3.go. -/
 def lossyReq : List (String × String) := [
   ("ListBuckets", "Owner"), ("ListBuckets", "IsAdmin"),
+  ("PutObject", "Body"),
   ("PutObject", "Expires"), ("PutObject", "ObjectLockMode"), ("PutObject", "ObjectLockRetainUntilDate"),
   ("PutObject", "ObjectLockLegalHoldStatus"),
   ("HeadObject", "PartNumber"),
-  ("GetObjectAttributes", "MaxParts"),
   ("CopyObject", "Expires"),
   ("PutObjectTagging", "tags"),
-  ("ListObjects", "MaxKeys"), ("ListObjectsV2", "MaxKeys"), ("ListObjectVersions", "MaxKeys"),
   ("CreateMultipartUpload", "Expires"),
-  ("ListParts", "MaxParts"), ("ListMultipartUploads", "MaxUploads"),
-  ("CompleteMultipartUpload", "MpuObjectSize")]
+  ("UploadPart", "Body")]
 
 /-- `0 → absent` normalisations that cannot lose anything because the front end never hands over
 the value 0 for that field: `HeadObject.PartNumber` is validated to 1…10000 (or left nil) in
-HeadObject of base.go. (`MaxKeys`/`MaxUploads`/`MaxParts` CAN be 0: `utils.ParseUint("0")`.) -/
+HeadObject of base.go. -/
 def zeroUnreachable : List (String × String) := [("HeadObject", "PartNumber")]
+
+/-- Fields assigned under a condition on another request field (`condWrites` of the table), with
+the argument why nothing is lost: `PutObject` / `UploadPart` replace the body by
+`bytes.NewReader(nil)` exactly when `ContentLength` is 0 — an empty body by an empty body (the
+SDK cannot stream an empty non-seekable body in a form the endpoint accepts). The paired runs
+read every uploaded object back and compare the bytes, empty ones included. -/
+def emptyBodyRewrite : List (String × String) := [("PutObject", "Body"), ("UploadPart", "Body")]
 
 /-- Computed fields whose computation is transcribed and proved faithful below
 (`PutObjectTagging`: the tag map is turned into a TagSet list element by element). -/
@@ -292,14 +300,11 @@ def relevantResp : List (String × String × String) := [
   ("CompleteMultipartUpload", "ETag", "ETag"), ("CompleteMultipartUpload", "Key", "Key"),
   ("CompleteMultipartUpload", "Bucket", "Bucket"), ("CompleteMultipartUpload", "VersionId", "VersionId")]
 
-/-- SDK output fields the unchanged code does not copy into its result (exactly the relevant
-entries failing `copiedResp`). -/
-def droppedResp : List (String × String) := [
-  ("PutObject", "ChecksumType"),
-  ("GetObjectAttributes", "VersionId"),
-  ("ListObjects", "EncodingType"),
-  ("ListObjectsV2", "StartAfter"), ("ListObjectsV2", "EncodingType"),
-  ("UploadPartCopy", "CopySourceVersionId")]
+/-- SDK output fields the code does not copy into its result (exactly the relevant entries
+failing `copiedResp`): none. History: (PutObject, ChecksumType), (GetObjectAttributes, VersionId),
+(ListObjects, EncodingType), (ListObjectsV2, StartAfter), (ListObjectsV2, EncodingType),
+(UploadPartCopy, CopySourceVersionId) were entries until s3.go copied them. -/
+def droppedResp : List (String × String) := []
 
 /-- Output fields that are computed rather than copied, with the computation transcribed here:
 `ListParts`' numeric markers go through `strconv.Atoi`, `ListMultipartUploads.MaxUploads`,
@@ -427,9 +432,12 @@ def createBucketTags (acl : Bytes) : Except TagErr Tags :=
 
 /-! ### client-facing bucket tagging
 
-`*S3Proxy` does not define Get/Put/DeleteBucketTagging (regenerated: `unimplemented`); the embedded
-`backend.BackendUnsupported` answers NotImplemented and touches nothing. `clientTagging` is that
-behaviour; `fixedGet/Put/Delete` are the methods proposed in docs/C18-fix-3.diff. -/
+`clientTagging true` transcribes Get/Put/DeleteBucketTagging of `*S3Proxy` (s3.go: `reservedTags`
+splits the endpoint's tag set into the gateway's own tag and the client's tags; a put writes the
+client's tags NEXT TO the reserved one, a delete keeps the reserved one, a get shows only the
+client's). `clientTagging false` is the behaviour before these methods existed (the embedded
+`backend.BackendUnsupported` answers NotImplemented and touches nothing); the harness picks the
+variant from the regenerated `unimplemented` list. -/
 
 inductive TagOp where
   | get | put (tags : Tags) | delete
